@@ -62,6 +62,7 @@ def run(idx: ProgramIndex, rep: Report, tier: str):
     rep.rule("C04-6", "the caches carried into the fantasy strategy do not depend on detach_test_caches (branches differ by .detach() only)")
     from .c03 import detach_neutral
     detach_neutral(idx, rep, rule="C04-6", only_functions={"get_fantasy_strategy", "get_fantasy_model"}, floor=1)
+    lazy_references(idx, rep)
     rep.assume("exception safety is outside the statement: a deepcopy that raises (e.g. non-leaf cached tensors) leaves the source with nulled attributes, but then no fantasy model was created")
 
 
@@ -547,3 +548,42 @@ def likelihood_copies(idx: ProgramIndex, rep: Report):
         rep.add("C04-4", "%s:%s" % (fi.module.name, fi.qualname), fi.where, ok and bool(rets), "returns a deep copy (or delegates to an implementation that does)" if ok else
                 "get_fantasy_likelihood returns `%s`: the fantasy model would share (and later mutate) the source's likelihood" % ", ".join(src(r) for r in rets), {})
     rep.floor("C04-4", "get_fantasy_likelihood implementations", n, 3)
+
+
+# ---- C04-7: the fantasy model keeps no lazily evaluated reference into the source ----------------------------------------
+def lazy_references(idx: ProgramIndex, rep: Report):
+    """The joint prior handed to get_fantasy_strategy becomes the new strategy's train_prior_dist.  Its covariance is a lazily
+    evaluated kernel tensor, i.e. a reference to the kernel *module* that produced it, evaluated when the fantasy model first
+    predicts.  If it was produced by the source model's modules, a later change of the source's hyperparameters changes the
+    fantasy model's predictions.  It has to be produced by the copy (after the deepcopy) or be evaluated before it is handed over."""
+    from ..symbolic import inline, walk_paths
+    rep.rule("C04-7", "the joint prior stored in the fantasy strategy is produced by the copy's modules (or evaluated), not lazily by the source's")
+    E = idx.find_class("ExactGP")
+    fi = idx.method(E, "get_fantasy_model", own=True)
+    sn = fi.params[0]
+    copies = {n.targets[0].id for n in ast.walk(fi.node) if isinstance(n, ast.Assign) and isinstance(n.value, ast.Call) and (chain(n.value.func) or "").split(".")[-1] == "deepcopy" and isinstance(n.targets[0], ast.Name)}
+    n = 0
+    for path, seq in walk_paths(fi):
+        for st, env in seq:
+            if not isinstance(st, ast.stmt):
+                continue
+            for c in (x for x in ast.walk(st) if isinstance(x, ast.Call)):
+                if not (isinstance(c.func, ast.Attribute) and c.func.attr == "get_fantasy_strategy"):
+                    continue
+                for i, a in enumerate(c.args):
+                    v = inline(a, env)
+                    # a distribution produced by calling a model: <model>.__call__(...) / super().__call__(...) / <model>(...)
+                    if not (isinstance(v, ast.Call) and isinstance(v.func, ast.Attribute) and v.func.attr in ("__call__", "forward")):
+                        continue
+                    owner = v.func.value
+                    by_source = (isinstance(owner, ast.Call) and chain(owner.func) == "super" and (not owner.args or src(owner.args[-1]) == sn)) or chain(owner) == sn
+                    by_copy = (isinstance(owner, ast.Call) and chain(owner.func) == "super" and owner.args and src(owner.args[-1]) in copies) or chain(owner) in copies
+                    inst = "%s:ExactGP.get_fantasy_model[joint prior -> get_fantasy_strategy arg %d]" % (E.module.name, i)
+                    if any(o.rule == "C04-7" and o.instance == inst for o in rep.obligations):
+                        continue
+                    n += 1
+                    ok = by_copy and not by_source
+                    rep.add("C04-7", inst, "%s:%d" % (fi.module.relpath, c.lineno), ok,
+                            "the joint prior is evaluated by the copy" if ok else
+                            "the joint prior `%s` is produced by the source model's modules and handed over lazily: the fantasy strategy's train_prior_dist keeps a reference to the source's kernel, so changing the source afterwards changes the fantasy model's predictions" % " ".join(src(a).split())[:40], {})
+    rep.floor("C04-7", "joint priors handed to get_fantasy_strategy", n, 1)
